@@ -101,7 +101,7 @@ ChunkChoices(left) == {c \in {0, 1, 2, left \div 2, left - 1, left} : c >= 0 /\ 
 (* define a class again, e.g. with another field order; earlier instances keep theirs)  *)
 DefsOf(t) == {i \in 1..Len(cls) : cls[i].t = t}
 DefIndex(t) == IF DefsOf(t) = {} THEN 0 ELSE CHOOSE i \in DefsOf(t) : \A j \in DefsOf(t) : j <= i
-ShortStr(b) == <<Len(b)>> \o b                      \* names are ASCII and shorter than 32 here
+ShortStr(b) == <<CharCount(b)>> \o b                \* names are shorter than 32 characters here (the prefix counts characters)
 Droppable(ty, j) == Ty(ty.ft[j]).kind \in {"bool", "int", "int8", "int16", "int32", "int64", "uint", "uint8",
                                             "uint16", "uint32", "uint64", "float32", "float64", "string", "bytes", "time"}
 Injective(f) == \A a, b \in DOMAIN f : a # b => f[a] # f[b]
@@ -120,7 +120,13 @@ UnknownName == <<122, 122, 85, 110, 107>>           \* "zzUnk"
 IsLetter(x) == (x >= 65 /\ x <= 90) \/ (x >= 97 /\ x <= 122)
 FlipCase(x) == IF x >= 97 THEN x - 32 ELSE x + 32
 NearNames(ty) == {[Lower1(ty.fn[j]) EXCEPT ![2] = FlipCase(@)] : j \in {i \in 1..Len(ty.fn) : Len(ty.fn[i]) >= 2 /\ IsLetter(ty.fn[i][2])}}
-UnknownNames(ty) == {UnknownName} \cup NearNames(ty)
+(* the name of a field of an EMBEDDED struct: a field of that struct, not of this one (the library writes an  *)
+(* embedded struct as one field named after its type and reads it back as such)                                *)
+HasFe(ty) == "fe" \in DOMAIN ty
+PromotedNames(ty) == IF ~HasFe(ty) THEN {} ELSE
+  UNION {{Lower1(Ty(ty.ft[j]).fn[k]) : k \in 1..Len(Ty(ty.ft[j]).fn)}
+         : j \in {i \in 1..Len(ty.fn) : ty.fe[i] = 1 /\ Ty(ty.ft[i]).kind = "struct"}}
+UnknownNames(ty) == {UnknownName} \cup NearNames(ty) \cup (PromotedNames(ty) \ {Lower1(ty.fn[j]) : j \in 1..Len(ty.fn)})
 DefOctets(ty, order, upper, unk) ==
   LET name == IF ty.hasreg = 1 THEN ty.reg ELSE ty.name
       RECURSIVE Names(_)
